@@ -15,7 +15,7 @@
   any number of successive rollouts.  For "no reconciler panics" (`loop_total_delete_partial`) the label set is
   widened by `delete` at any point (`legalD`).  Not covered (hence `_partial`): a new release or a rollback
   *while* a rollout is in progress (continuous release, rollback — where `loop_supervised_full_FALSE` shows a real
-  defect of the unchanged code, known finding `supersedeRace`), disabling / pausing of the Rollout, step jumps, plan
+  defect of the unchanged code, the repaired defect `supersedeRace`, see section 3b), disabling / pausing of the Rollout, step jumps, plan
   edits, scaling, API faults inside a reconcile.  The walks of suite `closedloop` exercise release / rollback /
   delete / faults too and compare them with the model step by step; only the invariants are not proved for them.
 
@@ -35,6 +35,10 @@ import RV.Lemmas.ClosedLoopGate
 import RV.Lemmas.ClosedLoopMono
 import RV.Lemmas.ClosedLoopDelRo
 import RV.Lemmas.ClosedLoopDelRest
+import RV.Lemmas.ClosedLoopHolds
+import RV.Lemmas.ClosedLoopResetRo
+import RV.Lemmas.ClosedLoopResetBr
+import RV.Lemmas.ClosedLoopResetLabels
 import RV.Props.ExecutorThms
 namespace RV.Props.ClosedLoop
 open RV.Arith RV.Traffic RV.RolloutSM RV.ClosedLoop RV.Oracle.ClosedLoop RV.Oracle.Batch RV.Lemmas.ClosedLoop
@@ -409,49 +413,207 @@ theorem loop_paused_frame (s s' : CS) (w : CWl) (hgone : s.gone = false) (hfin :
     refine ⟨trivial, trivial, hnet, ?_⟩
     cases h1 : s.ro.sub <;> cases h2 : r.w.ro.sub <;> simp only [hro, h1, h2] at hsub <;> simp_all
 
-/-! ### 3b. supervision (C01 / C08): no pod runs a revision the rollout has not taken up
+/-! ### 3b. supervision (C01 / C08 / C10): no pod runs a revision the rollout has not taken up
 
-Full-strength statement (FALSE for the unchanged code — known finding `supersedeRace`):
+The label set is widened (`legalS`) by a **superseding release**: a new revision pushed while the rollout is rolling
+(`supersedeOK`: at least one replica, a new revision, and the BatchRelease — if one exists — Progressing with the rolled
+revision and the workload's size recorded).  The invariant is `supInv = fwdInv ∨ (resetInv ∧ resetCursor)`: while the
+Rollout controller resets the superseded release, the workload stays exactly as the admission webhook left it (partition
+100 %, no pod on the new revision) and the BatchRelease cannot lower the partition (`brHolds`).
 
-    ∀ history over ALL labels (a release at any time) from `Init`, every state satisfies `supervisedOK`.
+This is the region of the repaired defect `supersedeRace` (the executor used to record the new revision and carry on with
+the old plan).  Two regions stay outside (open known findings): a release pushed while the BatchRelease has been created but
+not yet initialised (`supersedeBeforeInit`, witness `loop_supervised_full_FALSE` below: `Initialize` adopts whatever revision
+the workload has by then), and a release pushed during the clean-up (`releaseWhileFinalising`). -/
 
-The BatchRelease executor answers a changed pod template (`WorkloadPodTemplateChanged`) by recording the new update
-revision and stopping for ONE round; on the next rounds it carries on with the old plan for the NEW revision and lowers
-the partition the admission webhook had just set to 100 % — before the Rollout controller has reset the release.
-Witness below; candidate repair `fixes/closedloop-supersede-race.patch` (do not advance the observed revision: keep
-stopping until the Rollout controller deletes / re-creates the BatchRelease). -/
+/-- histories that may push a superseding release -/
+inductive ReachS : CS → List Label → CS → Prop
+  | nil (s : CS) : ReachS s [] s
+  | cons (s s' s'' : CS) (l : Label) (ls : List Label) :
+      legalS s l = true → step s l = some s' → ReachS s' ls s'' → ReachS s (l :: ls) s''
 
-/-- **C01 / C08 (closed loop)** — along every forward history (no release during a rollout), while the rollout is rolling
-    the workload's update revision is the one the rollout is releasing, so `supervised` holds.
-    (partial: label set — with a release during a rollout the statement is false, see `loop_supervised_full_FALSE`;
-    and only the rolling states are covered: outside them the sub-status of the previous rollout is not tracked) -/
-theorem loop_supervised_partial (s0 s : CS) (ls : List Label) (h0 : Init s0) (hr : Reach s0 ls s)
-    (hph : s.ro.phase = .progressing) (hre : s.ro.reason = .inRolling) : supervisedOK s = true ∧ gSupersedeRace s = false := by
-  have h := loop_inv_partial s0 s ls h0 hr
-  obtain ⟨hgone, _, w, hw, _, _, _, hpi⟩ := fwd_parts s h
-  cases hsub : s.ro.sub with
-  | none => rw [phaseInv, hph, hre] at hpi; simp only [hsub] at hpi; cases hpi
-  | some sub =>
-    rw [phaseInv_rolling s w sub hph hre hsub] at hpi
-    simp only [Bool.and_eq_true] at hpi
-    have sg := (subOK_iff s.ro sub w).1 hpi.1.1
+theorem stepBr_cursor (s s' : CS) (h : resetCursor s = true) (hs : stepBr s = some s') : resetCursor s' = true := by
+  unfold stepBr at hs
+  cases hb : s.br with
+  | none => rw [hb] at hs; cases hs; exact h
+  | some b =>
+    rw [hb] at hs
+    dsimp only at hs
+    split at hs
+    · cases hs
+    · cases hs
+      unfold resetCursor at h ⊢
+      simp only [landBr]
+      cases hsub : s.ro.sub with
+      | none => rfl
+      | some sub =>
+        rw [hsub] at h
+        simp only [hb, Option.isNone_some, Bool.or_false] at h
+        simp only [h, Bool.true_or]
+
+/-- **the supersession invariant is inductive** -/
+theorem sup_step (s : CS) (l : Label) (h : supInv s = true) (hl : legalS s l = true) :
+    ∃ s', step s l = some s' ∧ supInv s' = true := by
+  by_cases hf : fwdInv s = true
+  · -- forward invariant
+    cases l with
+    | release rev =>
+      simp only [legalS, Bool.and_eq_true, Bool.or_eq_true] at hl
+      rcases hl.2 with hi | hsup
+      · exact ⟨_, rfl, by unfold supInv; rw [release_fwd s rev hf hi]; rfl⟩
+      · refine ⟨_, rfl, ?_⟩
+        have hr := supersede_release s rev hf hsup
+        unfold supInv
+        rw [hr]
+        -- the clean-up cursor of a rolling rollout is unset
+        obtain ⟨_, _, w, hw, _, _, _, hpi⟩ := fwd_parts s hf
+        simp only [supersedeOK, Bool.and_eq_true, beq_iff_eq, Bool.not_eq_true'] at hsup
+        obtain ⟨⟨⟨_, hph⟩, hre⟩, _⟩ := hsup
+        cases hsub : s.ro.sub with
+        | none => rw [phaseInv, hph, hre] at hpi; simp only [hsub] at hpi; cases hpi
+        | some sub =>
+          rw [phaseInv_rolling s w sub hph hre hsub] at hpi
+          simp only [Bool.and_eq_true] at hpi
+          have sg := (subOK_iff s.ro sub w).1 hpi.1.1
+          simp only [resetCursor, hsub, sg.fin]
+          simp
+    | delete => cases hl
+    | ro => obtain ⟨t, ht, hi⟩ := fwd_step s .ro hf rfl; exact ⟨t, ht, by unfold supInv; rw [hi]; rfl⟩
+    | br => obtain ⟨t, ht, hi⟩ := fwd_step s .br hf rfl; exact ⟨t, ht, by unfold supInv; rw [hi]; rfl⟩
+    | env => obtain ⟨t, ht, hi⟩ := fwd_step s .env hf rfl; exact ⟨t, ht, by unfold supInv; rw [hi]; rfl⟩
+    | approve => obtain ⟨t, ht, hi⟩ := fwd_step s .approve hf rfl; exact ⟨t, ht, by unfold supInv; rw [hi]; rfl⟩
+    | tick => obtain ⟨t, ht, hi⟩ := fwd_step s .tick hf rfl; exact ⟨t, ht, by unfold supInv; rw [hi]; rfl⟩
+    | crash => obtain ⟨t, ht, hi⟩ := fwd_step s .crash hf rfl; exact ⟨t, ht, by unfold supInv; rw [hi]; rfl⟩
+  · -- reset invariant
+    have hff : fwdInv s = false := by simpa using hf
+    unfold supInv at h
+    rw [hff] at h
+    simp only [Bool.false_or, Bool.and_eq_true] at h
+    obtain ⟨hr, hc⟩ := h
+    have mk : ∀ t, resetInv t = true → resetCursor t = true → supInv t = true := by
+      intro t a b; unfold supInv; rw [a, b]; simp
+    cases l with
+    | release rev => simp only [legalS, hff, Bool.false_and] at hl; cases hl
+    | delete => cases hl
+    | ro =>
+      obtain ⟨t, ht, hi⟩ := stepRo_reset s hr hc
+      refine ⟨t, ht, ?_⟩
+      rcases hi with hi | ⟨a, b⟩
+      · unfold supInv; rw [hi]; rfl
+      · exact mk t a b
+    | br =>
+      obtain ⟨t, ht, hi⟩ := stepBr_reset s hr
+      exact ⟨t, ht, mk t hi (stepBr_cursor s t hc ht)⟩
+    | env => exact ⟨_, rfl, mk _ (env_reset s hr) hc⟩
+    | approve =>
+      refine ⟨_, rfl, mk _ (approve_reset s hr) ?_⟩
+      have e : resetCursor (approve s) = resetCursor s := by
+        unfold approve
+        split
+        · rfl
+        · cases hsub : s.ro.sub with
+          | none => rfl
+          | some sub =>
+            dsimp only
+            split
+            · simp only [resetCursor, hsub]
+            · rfl
+      rw [e]; exact hc
+    | tick =>
+      refine ⟨_, rfl, mk _ (tick_reset s hr) ?_⟩
+      have e : resetCursor (tick s) = resetCursor s := by
+        unfold tick resetCursor
+        cases hg : s.gone <;> cases hsub : s.ro.sub <;> simp [hsub]
+      rw [e]; exact hc
+    | crash => exact ⟨_, rfl, mk _ (crash_reset s hr) hc⟩
+
+/-- **every state reachable with superseding releases satisfies the supersession invariant** (induction over the history) -/
+theorem loop_sup_inv_partial (s0 s : CS) (ls : List Label) (h0 : Init s0) (hr : ReachS s0 ls s) : supInv s = true := by
+  have h : supInv s0 = true := by unfold supInv; rw [init_inv s0 h0]; rfl
+  clear h0
+  induction hr with
+  | nil => exact h
+  | cons s s' s'' l ls hl hs _ ih =>
+    obtain ⟨t, ht, hinv⟩ := sup_step s l h hl
+    rw [hs] at ht; cases ht
+    exact ih hinv
+
+/-- **C09 (closed loop, with supersession)** — no reconciler panics along histories with superseding releases -/
+theorem loop_total_supersede_partial (s0 s : CS) (ls : List Label) (h0 : Init s0) (hr : ReachS s0 ls s) :
+    step s .ro ≠ none ∧ step s .br ≠ none ∧ ∀ l, legalS s l = true → ∃ s', step s l = some s' := by
+  have h := loop_sup_inv_partial s0 s ls h0 hr
+  refine ⟨?_, ?_, fun l hl => ?_⟩
+  · obtain ⟨t, ht, _⟩ := sup_step s .ro h rfl; rw [ht]; simp
+  · obtain ⟨t, ht, _⟩ := sup_step s .br h rfl; rw [ht]; simp
+  · obtain ⟨t, ht, _⟩ := sup_step s l h hl; exact ⟨t, ht⟩
+
+/-- **C01 / C08 / C10 (closed loop, every history with superseding releases)** — while the rollout says InRolling, no pod
+    runs a revision the rollout has not taken up (`RV.Oracle.Cluster.supervised`): either the workload's update revision is the
+    one being released, or — a newer revision has been pushed and the Rollout controller has not reset the release yet — no
+    pod has been updated to it, the partition is still the 100 % of the admission webhook and the BatchRelease cannot lower it.
+    (partial: label set — `supersedeOK` excludes the two open findings named above; rolling states only) -/
+theorem loop_supervised_partial (s0 s : CS) (ls : List Label) (h0 : Init s0) (hr : ReachS s0 ls s)
+    (hph : s.ro.phase = .progressing) (hre : s.ro.reason = .inRolling) :
+    supervisedOK s = true ∧
+    (superseding s = true → ∃ w, s.wl = some w ∧ w.updated = 0 ∧ w.partition = some (.pct 100) ∧ brHoldsO s.br w = true) := by
+  have h := loop_sup_inv_partial s0 s ls h0 hr
+  by_cases hf : fwdInv s = true
+  · obtain ⟨hgone, _, w, hw, _, _, _, hpi⟩ := fwd_parts s hf
+    cases hsub : s.ro.sub with
+    | none => rw [phaseInv, hph, hre] at hpi; simp only [hsub] at hpi; cases hpi
+    | some sub =>
+      rw [phaseInv_rolling s w sub hph hre hsub] at hpi
+      simp only [Bool.and_eq_true] at hpi
+      have sg := (subOK_iff s.ro sub w).1 hpi.1.1
+      constructor
+      · unfold supervisedOK
+        rw [hgone, hw]
+        simp only [Bool.false_or]
+        unfold RV.Oracle.Cluster.supervised
+        have hwl : (roWorld s).wl = some (roWl w) := by simp only [roWorld, hw, Option.map_some]
+        have hro : (roWorld s).ro = s.ro := rfl
+        rw [hwl, hro, hsub]
+        dsimp only
+        rw [if_neg]
+        intro hc
+        exact hc.1 (by simp only [roWl]; exact sg.rev.symm)
+      · intro hs
+        exfalso
+        unfold superseding at hs
+        rw [hsub, hw] at hs
+        simp [sg.rev] at hs
+  · have hff : fwdInv s = false := by simpa using hf
+    unfold supInv at h
+    rw [hff] at h
+    simp only [Bool.false_or, Bool.and_eq_true] at h
+    obtain ⟨hro, w, hw, _, _, _, _, _, _, _, _, hupd, hheld, hholds⟩ := (resetro_iff s).1 h.1
+    obtain ⟨hgone, _⟩ := (roOK_iff s).1 hro
     constructor
     · unfold supervisedOK
       rw [hgone, hw]
       simp only [Bool.false_or]
       unfold RV.Oracle.Cluster.supervised
       have hwl : (roWorld s).wl = some (roWl w) := by simp only [roWorld, hw, Option.map_some]
-      have hro : (roWorld s).ro = s.ro := rfl
-      rw [hwl, hro, hsub]
-      dsimp only
-      rw [if_neg]
-      intro hc
-      exact hc.1 (by simp only [roWl]; exact sg.rev.symm)
-    · unfold gSupersedeRace
-      rw [hsub, hw]
-      simp only [Bool.and_eq_false_imp]
-      intro _
-      simp [sg.rev]
+      rw [hwl]
+      cases (roWorld s).ro.sub with
+      | none => rfl
+      | some sub =>
+        dsimp only
+        split
+        · simp only [wlx]; exact decide_eq_true hupd
+        · rfl
+    · intro _
+      exact ⟨w, hw, hupd, (held_iff w).1 hheld, hholds⟩
+
+/-- **C08 / C10 (executor, every state)** — the repaired behaviour as a one-step theorem over ALL states: a Progressing
+    BatchRelease that is not being finalised and sees a pod template other than the revision it recorded never writes the
+    workload and keeps the recorded revision (or, for a plan index outside the plan, falls back to Preparing). -/
+theorem superseded_never_writes (br : Executor.BR) (wl : Option Executor.Workload) (o : Executor.StepOut)
+    (h : Executor.reconcile br wl = .val o)
+    (hph : br.status.phase = .progressing) (hnf : Executor.isPlanFinalizing br = false)
+    (hev : (Executor.syncInfo (Executor.withFinalizer br) (Executor.initializedStatus br.status) wl).1 = .podTemplateChanged) :
+    o.wl = wl ∧ ∀ b', o.br = some b' → (b'.status.updateRevision = br.status.updateRevision ∨ b'.status.phase = .preparing) :=
+  RV.Lemmas.ClosedLoop.superseded_never_writes br wl o h hph hnf hev
 
 /-! ### 5. `loop_crash` (C06) -/
 
@@ -617,16 +779,32 @@ example : (legalRunD exS0 (.release "v2" :: (List.replicate 9 exRound).flatten +
 def supersedeHist : List Label :=
   .release "v2" :: (List.replicate 12 exRound).flatten ++ [.release "v3", .br, .env, .br, .env, .br, .env, .br, .env]
 
-/-- **known finding `supersedeRace` — witness.**  Rollout of `v2` on step 1 (20 %, batch ready, 2 of 10 pods updated); the
-    user pushes `v3` (held back by the webhook at partition 100 %); the BatchRelease controller reconciles four times and
-    the CloneSet controller reacts before the Rollout controller reconciles once: the partition is back at 80 % and 2 pods
-    run `v3`, a revision the Rollout (still on `v2`, step 1) has not taken up.  The same history is replayed on the real
-    controllers on every run (corpus `closedloop/finding-supersedeRace`). -/
-theorem loop_supervised_full_FALSE :
+/-- regression test of the repaired defect `supersedeRace` (fix: the executor no longer records a superseding revision and
+    keeps stopping): rollout of `v2` on step 1, the user pushes `v3`, the BatchRelease controller reconciles four times and
+    the CloneSet controller reacts before the Rollout controller reconciles once — the workload stays held at partition
+    100 %, no pod runs `v3`.  (Before the fix: partition 80 %, 2 pods on `v3`.) -/
+example :
     (run exS0 supersedeHist).map (fun s =>
-        gSupersedeRace s && !supervisedOK s &&
-        (match s.wl with | some w => w.updateRevision == "v3" && w.updated == 2 && w.partition == some (.pct 80) | none => false) &&
+        supervisedOK s &&
+        (match s.wl with | some w => w.updateRevision == "v3" && w.updated == 0 && w.partition == some (.pct 100) | none => false) &&
         (match s.ro.sub with | some sub => sub.canaryRev == "v2" && sub.curIdx == 1 | none => false)) = some true := by
+  decide +kernel
+
+/-- the history of the `supersedeBeforeInit` witness: `v3` is pushed when the BatchRelease for `v2` has just been created -/
+def beforeInitHist : List Label :=
+  .release "v2" :: (List.replicate 5 exRound).flatten ++ [.release "v3", .br, .env, .br, .env, .br, .env, .br, .env]
+
+/-- **known finding `supersedeBeforeInit` — witness** (the full-strength statement "every state of every history, a release at
+    any time, satisfies `supervisedOK`" is still FALSE after the repair of `supersedeRace`): the BatchRelease for `v2` exists but
+    has not been initialised (no revision recorded); the user pushes `v3`; `Initialize` records `v3` as the release's update
+    revision and the executor rolls batch 0 of `v3` — 2 of 10 pods — while the Rollout still says `v2`, step 1, StepUpgrade.
+    Replayed on the real controllers on every run (corpus `closedloop/finding-supersedeBeforeInit`). -/
+theorem loop_supervised_full_FALSE :
+    (run exS0 beforeInitHist).map (fun s =>
+        superseding s && !supervisedOK s &&
+        (match s.wl with | some w => w.updateRevision == "v3" && w.updated == 2 && w.partition == some (.pct 80) | none => false) &&
+        (match s.ro.sub with | some sub => sub.canaryRev == "v2" && sub.curIdx == 1 | none => false) &&
+        (match s.br with | some b => b.st.updateRevision == "wl-v3" | none => false)) = some true := by
   decide +kernel
 
 /-- test: the ghost of the first history: on step 1 in `StepUpgrade`, nothing observed yet -/
